@@ -18,7 +18,7 @@ import os
 import vlib
 from vlib import log
 
-CURVES = ["bls12_381_g1", "secp256k1", "jubjub", "curve25519", "bn256_g1"]
+CURVES = ["bls12_381_g1", "secp256k1", "jubjub", "curve25519", "bn256_g1", "bls12_381_g2", "bn256_g2"]
 
 
 def rel(e):
@@ -88,7 +88,7 @@ def run(tier):
         "exhaustive": False,
     })
     rep.assumptions += ["affine coordinates are read through the library's own coordinate accessors (to_affine / coordinates)",
-                        "BLS12-381 G2, BN254 G2 and points outside the subgroup built with unchecked constructors are not covered",
+                        "G2 of both pairing curves is judged by the group law over Fp2 of Tower.tla; points outside the subgroup built with unchecked constructors are not covered",
                         "byte formats are not modelled: encodings are judged by laws (round trip, canonical re-encoding, membership)"]
     return rep.finish()
 
